@@ -56,7 +56,7 @@ claimed = {
  "C01": dict(
    text="Deductive proof of the decomposition the property rests on: (a) send registers the call and reads the sequence number in one critical section of Conn.mutex (lockset obligations) and hands "
         "exactly that sequence number and the call's own upgrade/method/args to WriteRequest; (b) the default-header encoders put those fields on the wire in the documented format (clientCodec.WriteRequest, "
-        "serverCodec.WriteResponse against the wire spec functions of C07), the server answers a request from the same context object (same Seq, same Error text); (c) read looks the call up by the header's "
+        "serverCodec.WriteResponse against the wire spec functions of C07), the server answers a request from the same context object (same Seq, same Error text); the default-header read paths hand the protobuf decoder an empty header object (the decoder assigns only fields present on the wire, so a reused object would leak the previous response's reply) and take the decoded fields from inside the frame; (c) read looks the call up by the header's "
         "sequence number under the lock, a call object is written only by the holder of its completion token, and finishCall copies the reply bytes of that same response into the call's own buffer and decodes them into that call's Reply, once.",
    note=TRUST+"Byte-stream framing/fragmentation lives in hslam/socket (assumed); body codecs and the non-default header encoders are interface contracts (assumed) on the Write/Read paths; "
         "that sequence numbers are unique per connection relies on the assumed no-wrap bound of the 64-bit counter; the header decoders are not proved functionally: the bounded stand-in bounded/header_roundtrip_test.go also runs under this check (labelled bounded, not counted); the end-to-end statement over all interleavings is the composition of these per-function facts, which is argued in DESIGN.md, not machine-checked as one theorem.",
